@@ -381,6 +381,9 @@ def _stage(seed, tier, key="N-x"):
         pkgs.append(("fx_" + nm, {"k.go": wrap(body)}, ["k.go"], None, dict(kind="reproducer of a repaired type-spelling defect")))
     pkgs.append(("fx_bind_unused_import", BIND_UNUSED_IMPORT, ["k.go"], None, dict(kind="reproducer of a repaired defect (imports of types that are not written)")))
     pkgs.append(("fx_unimported_clash", UNIMPORTED_CLASH, ["k.go"], None, dict(kind="reproducer of a repaired type-spelling defect (package name of an unimported package)")))
+    big = NAMING["suffix_types"]
+    small = "type Foo struct{ X int }\ntype Out struct{ N int }\nfunc NewFoo() (*Foo, error) { return &Foo{}, nil }\nfunc NewOut(a *Foo) (*Out, error) { return &Out{N: 1}, nil }\nvar _ = kessoku.Inject[*Out](\"InitOut\", kessoku.Provide(NewFoo), kessoku.Provide(NewOut))\n"
+    pkgs.append(("regen_shrink", {"k.go": wrap(big)}, ["k.go"], None, dict(kind="regeneration over a longer previous output after the wiring shrank", then={"k.go": wrap(small)})))
     for o in (0, 1):
         files, targets, meta = multi_pkg(o)
         pkgs.append(("mp%d" % o, files, targets, None, meta))
@@ -393,6 +396,12 @@ def _stage(seed, tier, key="N-x"):
         name, files, targets, expect, meta = p
         d = write_pkg(mod, name, files)
         rc, o, e = vlib.run([kessoku] + targets, cwd=d, env=vlib.goenv(), timeout=120)
+        if rc == 0 and meta.get("then"):
+            # the wiring shrinks and the file is regenerated in place, over the longer previous output
+            for fn, txt in meta["then"].items():
+                with open(os.path.join(d, fn), "w") as f:
+                    f.write(txt)
+            rc, o, e = vlib.run([kessoku] + targets, cwd=d, env=vlib.goenv(), timeout=120)
         rec = dict(name=name, expect=expect, meta=meta, gen_rc=rc, gen_err=e[-600:] if rc else "", vet_rc=None, vet="", run_rc=None, dir=name)
         if rc != 0:
             return rec
